@@ -23,7 +23,18 @@ const VALID: &[&str] = &[
 ];
 const INVALID: &[&str] = &["@export A = 'a'", "@export A = ;;", "@export A = @:B;\nB = 'b';\n", "@export A = !(x:B);\nB = 'b';\n", "Whitespace = ' ';\n", ""];
 /// prefixes: several are prefixes of each other; the last one is rewritten by rustfmt
-const PREFIXES: &[&str] = &["", "use std::fmt;", "use std::fmt; // first", "// note", "// note\nuse std::fmt;", "\n// after empty line", "use   std::fmt ;"];
+const PREFIXES: &[&str] = &[
+    "",
+    "use std::fmt;",
+    "use std::fmt; // first",
+    "// note",
+    "// note\nuse std::fmt;",
+    "\n// after empty line",
+    "use   std::fmt ;",
+    // strings that look like template placeholders / format directives / escapes must be copied verbatim
+    "// {code} {header} {prefix} {} {0} %s $1 \\n",
+    "use std::collections::{BTreeMap as code, BTreeSet as header};",
+];
 
 #[derive(Debug, Clone, Serialize, Deserialize, PartialEq)]
 pub enum Op {
